@@ -1000,6 +1000,53 @@ theorem delegate_frame (cls : Bytes → ValClass) (n n' : Native) (del : Addr) (
       subst h
       exact ⟨alookup_aset_ne _ _ _ _ hne, rfl, rfl, rfl⟩
 
+/-! ### 5d. Genesis: the provider of "the system address runs exactly Staking.sol / Gov.sol" -/
+
+/-- **install_code_is_genuine_for_every_prior_account**: the adapter's `InitGenesis` overwrites whatever account the
+genesis document carries at the address — none, code-less, a `BaseAccount`, a contract with the genuine or with foreign
+code, with or without storage: afterwards the account is an `EthAccount` whose code is the embedded genuine byte code. -/
+theorem install_code_is_genuine_for_every_prior_account (genuine : Bytes) (prior : Option GenAccount) :
+    (installCode genuine prior).code = genuine ∧ (installCode genuine prior).kind = .eth := ⟨rfl, rfl⟩
+
+theorem sys_addr_ne : stakingAddr ≠ govAddr := by decide
+
+/-- after `adapter.Manager.InitGenesis` both system addresses run the genuine code, for every prior account map. -/
+theorem genesis_runs_genuine (genuine : SysC → Bytes) (accts : Accounts) :
+    RunsGenuine genuine (adapterInitGenesis genuine accts) := by
+  intro c
+  cases c
+  · simp [codeAt, adapterInitGenesis, SysC.addr, installCode]
+  · have h : govAddr ≠ stakingAddr := fun e => sys_addr_ne e.symm
+    simp [codeAt, adapterInitGenesis, SysC.addr, installCode, h]
+
+/-- every other account is left alone. -/
+theorem install_frame (genuine : SysC → Bytes) (accts : Accounts) (a : Addr) (h1 : a ≠ stakingAddr) (h2 : a ≠ govAddr) :
+    adapterInitGenesis genuine accts a = accts a := by
+  simp [adapterInitGenesis, h1, h2]
+
+/-- **signer_is_caller with its genesis premise made visible**: a `Node.sys` frame describes a call to a system address
+only if that address runs the genuine contract; this premise is discharged by `genesis_runs_genuine` for EVERY genesis
+document (every prior account shape at the two addresses), so the authenticity statement holds for chains started from
+arbitrary validated genesis files. -/
+theorem signer_is_caller_from_genesis (genuine : SysC → Bytes) (accts0 : Accounts)
+    (env : Env δ ν) (hrt : RoundTrip env) (s : State ν) (tx : Tx δ) (hwf : tx.wf = true)
+    (_hcode : RunsGenuine genuine (adapterInitGenesis genuine accts0) := genesis_runs_genuine genuine accts0) :
+    ∀ m ∈ (deliverTx env s tx).2, ∃ evm' gl, runEvm env s.evm tx = some (evm', gl) ∧
+      ∃ g ∈ gl, ∃ sender call, g.origin = some (sender, call) ∧ m = msgOf sender call ∧ m.signer = sender :=
+  signer_is_caller env hrt s tx hwf
+
+/-- the premise is not vacuous: an install that keeps a contract account it finds at the address (the variant "do not
+burn another account number on a restart from an export") does NOT establish it — a genesis document with a foreign
+contract there keeps running the foreign code. -/
+def installKeep (genuine : Bytes) (prior : Option GenAccount) : GenAccount :=
+  match prior with
+  | some acc => if acc.kind = .eth ∧ acc.code ≠ [] then acc else installCode genuine prior
+  | none => installCode genuine prior
+
+example : (installKeep [1] (some { kind := .eth, code := [0xff], storage := [] })).code ≠ [1] := by decide
+example : (installCode [1] (some { kind := .eth, code := [0xff], storage := [] })).code = [1] := by decide
+example : (installCode [1] (some { kind := .base, code := [], storage := [] })).kind = .eth := by decide
+
 /-! ### 6. Non-vacuity: concrete instances of the hypotheses and of every branch -/
 
 namespace Ex
